@@ -353,14 +353,18 @@ class Runner:
         trace = rep['trace']
         want = tuple(rep['signature']) if rep.get('signature') else None
         st, r = self.exec_trace(trace)
-        self.pool.cleanup()
         if st != 'ok':
+            self.pool.cleanup()
             print(f"HARNESS-ERROR replay status={st}\n{r}")
             return 2
+        # a replayed violation that the known-findings matchers attribute to a listed finding is that finding, not a new one
         known, new = self.attribute(trace, r) if self.matchers else ([], r['violations'])
+        self.pool.cleanup()
         for v in r['violations']:
             print(f"  observed: law={v.get('law')} class={v.get('cls')} key={v.get('key')} detail={str(v.get('detail'))[:600]}")
-        hit = [v for v in r['violations'] if want is None or sig(v) == want]
+        for kid, v in known:
+            print(f"KNOWN-FINDING: property={self.check.pid} {kid}: the replayed history is an instance of this listed finding")
+        hit = [v for v in new if want is None or sig(v) == want]
         if hit:
             print(f"VIOLATION property={self.check.pid} replay={path}")
             return 1
